@@ -103,6 +103,11 @@ def gen_schema_spec(rng, max_elems=8):
             if rng.random() < 0.5 and '' not in TYPES[k][3] and 'attr' not in ent:
                 # a default value: it applies to an empty element, never to a nilled one
                 ent['default'] = rng.choice([v for v in TYPES[k][3]]).strip()
+        if 'default' not in ent and 'attr' not in ent and rng.random() < 0.2 and '' not in TYPES[k][3] \
+                and TYPES[k][1] in ('int', 'Decimal', 'float', 'bool', 'str', 'lex'):
+            # a default (or fixed) value declared by both schemas: it is the typed value of an empty element
+            ent['edefault'] = rng.choice([v for v in TYPES[k][3]]).strip()
+            ent['efixed'] = rng.random() < 0.3
         elems.append(ent)
     attrs = []
     for an in ['id', 'n']:
@@ -151,6 +156,8 @@ def render_schema(spec, variant='A'):
                          '</xs:element>' % (e['name'], occ, nil, tname(e['type']), e['attr']['name'], tname(e['attr']['type'])))
         else:
             dflt = ' default="%s"' % e['default'] if e.get('default') and variant == 'A' else ''
+            if e.get('edefault'):
+                dflt = ' %s="%s"' % ('fixed' if e.get('efixed') else 'default', e['edefault'])
             parts.append('<xs:element name="%s" type="%s"%s%s%s/>' % (e['name'], tname(e['type']), occ, nil, dflt))
     for g in spec.get('groups', ()):
         parts.append('<xs:element name="%s" minOccurs="0"><xs:complexType><xs:sequence>'
@@ -188,6 +195,22 @@ def gen_instance(rng, spec):
         for i in range(k):
             v = rng.choice(pool(e['type']))
             a = ''
+            if e.get('edefault'):
+                if rng.random() < 0.5:
+                    body += '<%s%s/>' % (q, e['name'])
+                    facts.append({'path': '/t:r/%s%s[%d]' % (q, e['name'], i + 1), 'type': e['type'], 'lex': '', 'kind': 'element',
+                                  'eff': e['edefault']})
+                    continue
+                if e.get('efixed'):
+                    v = e['edefault']
+            if spec.get('xsi') and e['type'] == 'string' and 'attr' not in e and not e.get('edefault') and rng.random() < 0.4:
+                # an empty element with an xsi:type: the empty string, whatever its neighbours declare
+                pfx = spec.get('xsi_prefix', 'xs')
+                body += '<%s%s xmlns:%s="%s" xmlns:xsi="http://www.w3.org/2001/XMLSchema-instance" xsi:type="%s:token"/>' % (
+                    q, e['name'], pfx, XS, pfx)
+                facts.append({'path': '/t:r/%s%s[%d]' % (q, e['name'], i + 1), 'type': 'token', 'lex': '', 'kind': 'element',
+                              'xsi': True})
+                continue
             if spec.get('xsi') and e['type'] == 'integer' and 'attr' not in e and rng.random() < 0.5:
                 # the prefix of the xsi:type value is declared on the element itself
                 xt, vals = rng.choice(XSI_TYPES)
